@@ -210,8 +210,15 @@ def check(case, mon):
     tg.pool()
 
     # ---- rebuild: equal keys and hashes
-    T = tg.build(tree)
-    T2 = tg.build(tree, variant=1)
+    try:
+        T = tg.build(tree)
+        T2 = tg.build(tree, variant=1)
+    except ValueError as e:
+        if "Cannot take SparseArray to the power" in str(e):
+            # documented rejection (the tree filter mirrors the rule; this is the net)
+            mon.excluded("SparseArray ** constant is rejected by porepy (documented)")
+            return
+        raise
     mon.count("trees")
     nleaves = _count_leaves(tree)
     mon.measure("leaves_per_tree", nleaves)
